@@ -1,17 +1,607 @@
-//! stub: component `reqres` (to be written)
+//! C11: request-response through the real Client / Server port API (local and ipc service
+//! variants), one operation per line.  Request and response payloads are u64 tags that are unique
+//! per case (chosen by the generator).  The harness keeps an own book of who sent which tag for
+//! which request, so it can tell - without the model - when a response arrives at a pending
+//! response it was not sent for, twice, or out of order; and it re-reads everything it holds after
+//! every operation (canary).
 use crate::common::*;
+use iceoryx2::active_request::ActiveRequest;
+use iceoryx2::pending_response::PendingResponse;
+use iceoryx2::port::client::Client;
+use iceoryx2::port::server::Server;
+use iceoryx2::port::update_connections::UpdateConnections;
+use iceoryx2::prelude::*;
+use iceoryx2::response::Response;
+use std::collections::{HashMap, HashSet};
 
-pub struct ReqResComp;
+static SERVICE_COUNTER: std::sync::atomic::AtomicUsize = std::sync::atomic::AtomicUsize::new(0);
+
+type Cl<S> = Client<S, u64, (), u64, ()>;
+type Sv<S> = Server<S, u64, (), u64, ()>;
+type Pend<S> = PendingResponse<S, u64, (), u64, ()>;
+type Act<S> = ActiveRequest<S, u64, (), u64, ()>;
+type Resp<S> = Response<S, u64, ()>;
+
+struct HeldResp<S: Service> {
+    resp: Resp<S>,
+    tag: u64,
+    req: usize,
+    server: String,
+}
+
+struct RespInfo {
+    server: usize,
+    origin: Option<(usize, usize)>, // (client label, request label) of the request the response answers
+    seq: usize,
+}
+
+struct World<S: Service> {
+    #[allow(dead_code)]
+    node: Node<S>,
+    service: iceoryx2::service::port_factory::request_response::PortFactory<S, u64, (), u64, ()>,
+    clients: HashMap<usize, Cl<S>>,
+    servers: HashMap<usize, Sv<S>>,
+    client_labels: HashSet<usize>,
+    server_labels: HashSet<usize>,
+    client_ids: HashMap<u128, usize>,
+    server_ids: HashMap<u128, usize>,
+    client_max_active: HashMap<usize, usize>,
+    pendings: HashMap<(usize, usize), (Pend<S>, u64)>,
+    pending_labels: HashSet<(usize, usize)>,
+    actives: HashMap<(usize, usize), (Act<S>, u64)>,
+    active_labels: HashSet<(usize, usize)>,
+    held: HashMap<usize, Vec<HeldResp<S>>>,
+    max_active: usize,
+    max_borrow: usize,
+    // the harness's own book (oracle)
+    req_tags: HashMap<u64, (usize, usize)>,
+    server_seen: HashMap<usize, HashSet<u64>>,
+    server_last: HashMap<(usize, usize), u64>,
+    active_origin: HashMap<(usize, usize), (Option<(usize, usize)>, usize)>,
+    resp_tags: HashMap<u64, RespInfo>,
+    pending_seen: HashMap<(usize, usize), HashSet<u64>>,
+    pending_last: HashMap<(usize, usize, usize), usize>,
+}
+
+pub enum AnyWorld {
+    None,
+    Local(Box<World<local::Service>>),
+    Ipc(Box<World<ipc::Service>>),
+}
+pub struct ReqResComp {
+    w: AnyWorld,
+}
 impl ReqResComp {
     pub fn new() -> Self {
-        ReqResComp
+        ReqResComp { w: AnyWorld::None }
     }
 }
+fn n(s: &str) -> usize {
+    s.parse().unwrap()
+}
+
+/// new <variant> <max_clients> <max_servers> <max_active_requests_per_client> <max_response_buffer_size>
+///     <max_borrowed_responses> <overflow requests> <overflow responses> <fire and forget> <max_loaned_requests>
+///     <client_expired_connection_buffer> <server_expired_connection_buffer>
+fn mk<S: Service>(t: &[&str]) -> Result<World<S>, String> {
+    let k = SERVICE_COUNTER.fetch_add(1, std::sync::atomic::Ordering::Relaxed);
+    let mut config = iceoryx2::config::Config::global_config().clone();
+    config.defaults.request_response.client_expired_connection_buffer = n(t[11]);
+    config.defaults.request_response.server_expired_connection_buffer = n(t[12]);
+    // own domain: nothing is shared with other iceoryx2 users of this machine (test suites, other checks)
+    config.global.prefix = iceoryx2_bb_system_types::file_name::FileName::new(format!("vr{}_", std::process::id()).as_bytes()).unwrap();
+    let node = NodeBuilder::new().config(&config).create::<S>().map_err(|e| format!("err:node:{e:?}"))?;
+    let name = ServiceName::new(&format!("verif/reqres/{}/{k}", std::process::id())).unwrap();
+    let service = node
+        .service_builder(&name)
+        .request_response::<u64, u64>()
+        .max_clients(n(t[2]))
+        .max_servers(n(t[3]))
+        .max_active_requests_per_client(n(t[4]))
+        .max_response_buffer_size(n(t[5]))
+        .max_borrowed_responses_per_pending_response(n(t[6]))
+        .enable_safe_overflow_for_requests(n(t[7]) == 1)
+        .enable_safe_overflow_for_responses(n(t[8]) == 1)
+        .enable_fire_and_forget_requests(n(t[9]) == 1)
+        .max_loaned_requests(n(t[10]))
+        .create()
+        .map_err(|e| format!("err:service:{e:?}"))?;
+    Ok(World {
+        node,
+        service,
+        clients: HashMap::new(),
+        servers: HashMap::new(),
+        client_labels: Default::default(),
+        server_labels: Default::default(),
+        client_ids: HashMap::new(),
+        server_ids: HashMap::new(),
+        client_max_active: HashMap::new(),
+        pendings: HashMap::new(),
+        pending_labels: Default::default(),
+        actives: HashMap::new(),
+        active_labels: Default::default(),
+        held: HashMap::new(),
+        max_active: n(t[4]).max(1),
+        max_borrow: n(t[6]).max(1),
+        req_tags: HashMap::new(),
+        server_seen: HashMap::new(),
+        server_last: HashMap::new(),
+        active_origin: HashMap::new(),
+        resp_tags: HashMap::new(),
+        pending_seen: HashMap::new(),
+        pending_last: HashMap::new(),
+    })
+}
+
+fn exec<S: Service>(w: &mut World<S>, t: &[&str]) -> String {
+    let r: String = match t[0] {
+        "cclient" => {
+            // cclient <c> <max_active_requests or ->
+            let c = n(t[1]);
+            if w.client_labels.contains(&c) { "dup".to_string() } else {
+                let mut b = w.service.client_builder().backpressure_strategy(BackpressureStrategy::DiscardData);
+                if t[2] != "-" { b = b.max_active_requests(n(t[2])); }
+                match b.create() {
+                    Ok(p) => {
+                        w.client_ids.insert(p.id().value(), c);
+                        w.client_labels.insert(c);
+                        w.client_max_active.insert(c, p.max_active_requests());
+                        w.clients.insert(c, p);
+                        w.held.insert(c, vec![]);
+                        "ok".to_string()
+                    }
+                    Err(e) => format!("err:{e:?}"),
+                }
+            }
+        }
+        "dclient" => match w.clients.remove(&n(t[1])) { Some(p) => { drop(p); "ok".into() } None => "none".into() },
+        "cserver" => {
+            // cserver <s> <max_loaned_responses_per_request or ->
+            let s = n(t[1]);
+            if w.server_labels.contains(&s) { "dup".to_string() } else {
+                let mut b = w.service.server_builder().backpressure_strategy(BackpressureStrategy::DiscardData);
+                if t[2] != "-" { b = b.max_loaned_responses_per_request(n(t[2])); }
+                match b.create() {
+                    Ok(p) => {
+                        w.server_ids.insert(p.id().value(), s);
+                        w.server_labels.insert(s);
+                        w.servers.insert(s, p);
+                        "ok".to_string()
+                    }
+                    Err(e) => format!("err:{e:?}"),
+                }
+            }
+        }
+        "dserver" => match w.servers.remove(&n(t[1])) { Some(p) => { drop(p); "ok".into() } None => "none".into() },
+        "send" => {
+            // send <c> <r> <tag>: loan + write + send; the pending response is kept under (c, r)
+            let (c, r, tag) = (n(t[1]), n(t[2]), t[3].parse::<u64>().unwrap());
+            match w.clients.get(&c) {
+                None => "none".into(),
+                Some(_) if w.pending_labels.contains(&(c, r)) => "dup".into(),
+                Some(cl) => match cl.loan_uninit() {
+                    Err(e) => format!("err:loan:{e:?}"),
+                    Ok(req) => match req.write_payload(tag).send() {
+                        Err(e) => format!("err:send:{e:?}"),
+                        Ok(p) => {
+                            let k = p.number_of_server_connections();
+                            w.req_tags.insert(tag, (c, r));
+                            w.pending_labels.insert((c, r));
+                            w.pendings.insert((c, r), (p, tag));
+                            format!("ok:{k}")
+                        }
+                    },
+                },
+            }
+        }
+        "recvreq" => {
+            // recvreq <s> <a>
+            let (s, a) = (n(t[1]), n(t[2]));
+            match w.servers.get(&s) {
+                None => "none".into(),
+                Some(_) if w.active_labels.contains(&(s, a)) => "dup".into(),
+                Some(sv) => match sv.receive() {
+                    Err(e) => format!("err:{e:?}"),
+                    Ok(None) => "none".into(),
+                    Ok(Some(act)) => {
+                        let tag = *act.payload();
+                        let origin = w.client_ids.get(&act.origin().value()).cloned();
+                        let hdr_client = w.client_ids.get(&act.header().client_id().value()).cloned();
+                        if origin != hdr_client { oracle_fail("request header names another client than the connection it came over".into()); }
+                        let book = w.req_tags.get(&tag).cloned();
+                        match book {
+                            None => oracle_fail("server received a request that was never sent".into()),
+                            Some((c, _)) => {
+                                if Some(c) != origin { oracle_fail("request received from another client than the one that sent it".into()); }
+                                if !w.server_seen.entry(s).or_default().insert(tag) { oracle_fail("request received twice by the same server".into()); }
+                                let last = w.server_last.entry((s, c)).or_insert(0);
+                                if *last > tag { oracle_fail("requests of one client received out of order".into()); }
+                                *last = tag;
+                            }
+                        }
+                        w.active_origin.insert((s, a), (book, 0));
+                        w.active_labels.insert((s, a));
+                        w.actives.insert((s, a), (act, tag));
+                        format!("some:{}:{tag}", origin.map(|c| c.to_string()).unwrap_or("?".into()))
+                    }
+                },
+            }
+        }
+        "respond" => {
+            // respond <s> <a> <tag>: loan + write + send on the active request
+            let (s, a, tag) = (n(t[1]), n(t[2]), t[3].parse::<u64>().unwrap());
+            match w.actives.get(&(s, a)) {
+                None => "none".into(),
+                Some((act, _)) => match act.loan_uninit() {
+                    Err(e) => format!("err:loan:{e:?}"),
+                    Ok(resp) => {
+                        let (origin, seq) = w.active_origin.get(&(s, a)).cloned().unwrap();
+                        w.active_origin.insert((s, a), (origin, seq + 1));
+                        w.resp_tags.insert(tag, RespInfo { server: s, origin, seq });
+                        match resp.write_payload(tag).send() {
+                            Err(e) => format!("err:send:{e:?}"),
+                            Ok(()) => "ok".into(),
+                        }
+                    }
+                },
+            }
+        }
+        "dactive" => match w.actives.remove(&(n(t[1]), n(t[2]))) { Some(x) => { drop(x); "ok".into() } None => "none".into() },
+        "recvresp" => {
+            // recvresp <c> <r>
+            let (c, r) = (n(t[1]), n(t[2]));
+            match w.pendings.get(&(c, r)) {
+                None => "none".into(),
+                Some((p, _)) => match p.receive() {
+                    Err(e) => format!("err:{e:?}"),
+                    Ok(None) => "none".into(),
+                    Ok(Some(resp)) => {
+                        let tag = *resp.payload();
+                        let origin = w.server_ids.get(&resp.origin().value()).cloned();
+                        let os = origin.map(|c| c.to_string()).unwrap_or("?".into());
+                        match w.resp_tags.get(&tag) {
+                            None => oracle_fail("client received a response that was never sent".into()),
+                            Some(info) => {
+                                if Some(info.server) != origin { oracle_fail("response origin is not the server that sent it".into()); }
+                                match info.origin {
+                                    Some((c2, r2)) if c2 == c && r2 == r => {
+                                        if !w.pending_seen.entry((c, r)).or_default().insert(tag) { oracle_fail("response received twice".into()); }
+                                        let last = w.pending_last.entry((c, r, info.server)).or_insert(0);
+                                        if *last > info.seq { oracle_fail("responses of one server received out of order".into()); }
+                                        *last = info.seq + 1;
+                                    }
+                                    Some((c2, _)) if c2 == c => oracle_fail("response delivered to another request of the same client".into()),
+                                    Some(_) => oracle_fail("response delivered to a request of another client".into()),
+                                    None => oracle_fail("response of unknown origin delivered".into()),
+                                }
+                            }
+                        }
+                        w.held.entry(c).or_default().push(HeldResp { resp, tag, req: r, server: os.clone() });
+                        format!("some:{os}:{tag}")
+                    }
+                },
+            }
+        }
+        "dresp" => match w.held.get_mut(&n(t[1])) {
+            // dresp <c> <k>: the k-th response still held by client c
+            Some(v) if n(t[2]) < v.len() => { let x = v.remove(n(t[2])); drop(x); "ok".into() }
+            _ => "none".into(),
+        },
+        "dpending" => match w.pendings.remove(&(n(t[1]), n(t[2]))) { Some(x) => { drop(x); "ok".into() } None => "none".into() },
+        "connected" => match w.pendings.get(&(n(t[1]), n(t[2]))) { Some((p, _)) => format!("{}", p.is_connected()), None => "none".into() },
+        "aconnected" => match w.actives.get(&(n(t[1]), n(t[2]))) { Some((a, _)) => format!("{}", a.is_connected()), None => "none".into() },
+        "hint" => match w.pendings.get(&(n(t[1]), n(t[2]))) { Some((p, _)) => { p.set_disconnect_hint(); "ok".into() } None => "none".into() },
+        "ahint" => match w.actives.get(&(n(t[1]), n(t[2]))) { Some((a, _)) => format!("{}", a.has_disconnect_hint()), None => "none".into() },
+        "has" => match w.pendings.get(&(n(t[1]), n(t[2]))) { Some((p, _)) => format!("{}", p.has_response()), None => "none".into() },
+        "hasreq" => match w.servers.get(&n(t[1])) {
+            Some(s) => match s.has_requests() { Ok(b) => format!("{b}"), Err(e) => format!("err:{e:?}") },
+            None => "none".into(),
+        },
+        "upd" => {
+            let res = if t[1] == "c" { w.clients.get(&n(t[2])).map(|p| p.update_connections()) } else { w.servers.get(&n(t[2])).map(|p| p.update_connections()) };
+            match res { None => "none".into(), Some(Ok(())) => "ok".into(), Some(Err(e)) => format!("err:{e:?}") }
+        }
+        _ => panic!("bad op"),
+    };
+    // canary: everything still held must read back unchanged
+    for ((_, _), (p, tag)) in w.pendings.iter() {
+        if *p.payload() != *tag { oracle_fail("request held by a pending response changed".into()); }
+    }
+    for ((_, _), (a, tag)) in w.actives.iter() {
+        if *a.payload() != *tag { oracle_fail("request held by an active request changed".into()); }
+    }
+    for (_, v) in w.held.iter() {
+        for h in v {
+            if *h.resp.payload() != h.tag { oracle_fail("held response changed".into()); }
+        }
+    }
+    // limits (documented per client / per pending response)
+    let mut per_client: HashMap<usize, usize> = HashMap::new();
+    for ((c, _), _) in w.pendings.iter() { *per_client.entry(*c).or_default() += 1; }
+    for (c, k) in per_client.iter() {
+        if *k > *w.client_max_active.get(c).unwrap_or(&w.max_active) { oracle_fail("client has more pending responses than max active requests".into()); }
+    }
+    for (c, v) in w.held.iter() {
+        let mut per: HashMap<(usize, &str), usize> = HashMap::new();
+        let mut per_pending: HashMap<usize, usize> = HashMap::new();
+        for h in v {
+            if w.pendings.contains_key(&(*c, h.req)) {
+                *per.entry((h.req, h.server.as_str())).or_default() += 1;
+                *per_pending.entry(h.req).or_default() += 1;
+            }
+        }
+        if per.values().any(|k| *k > w.max_borrow) { oracle_fail("more responses of one server borrowed through one pending response than max borrowed responses".into()); }
+        if per_pending.values().any(|k| *k > w.max_borrow) { oracle_fail("pending response holds more responses than max borrowed responses".into()); }
+    }
+    r
+}
+
 impl Comp for ReqResComp {
-    fn exec(&mut self, _t: &[&str]) -> String {
-        "unimplemented".into()
+    fn exec(&mut self, t: &[&str]) -> String {
+        if t[0] == "new" {
+            self.w = AnyWorld::None;
+            return match t[1] {
+                "local" => match mk::<local::Service>(t) { Ok(w) => { self.w = AnyWorld::Local(Box::new(w)); "ok".into() } Err(e) => e },
+                _ => match mk::<ipc::Service>(t) { Ok(w) => { self.w = AnyWorld::Ipc(Box::new(w)); "ok".into() } Err(e) => e },
+            };
+        }
+        match &mut self.w {
+            AnyWorld::None => "no-world".into(),
+            AnyWorld::Local(w) => exec(w, t),
+            AnyWorld::Ipc(w) => exec(w, t),
+        }
     }
 }
-pub fn generate(_a: &Args) -> Vec<Vec<String>> {
-    vec![]
+
+// ---------------------------------------------------------------------------------------------
+// generators
+
+/// what the generator believes about the history so far (a rough guess, only used to pick
+/// operations that probably do something; the outcome of every call is decided by the
+/// implementation and compared with the model)
+struct GClient { label: usize, alive: bool, max_active: u64, pendings: Vec<usize>, held: usize }
+struct GServer { label: usize, alive: bool, actives: Vec<(usize, usize, usize)>, queue: Vec<(usize, usize)> }
+struct GenState {
+    clients: Vec<GClient>,
+    servers: Vec<GServer>,
+    all_pendings: Vec<(usize, usize)>,     // every label ever used, also dropped ones
+    all_actives: Vec<(usize, usize)>,
+    queued_resp: HashMap<(usize, usize), usize>,
+    nc: usize, ns: usize, nr: usize, na: usize, tag: u64,
+}
+impl GenState {
+    fn registered_clients(&self) -> usize { self.clients.iter().filter(|c| c.alive || !c.pendings.is_empty() || c.held > 0).count() }
+    fn registered_servers(&self) -> usize { self.servers.iter().filter(|s| s.alive || !s.actives.is_empty()).count() }
+}
+
+pub fn generate(a: &Args) -> Vec<Vec<String>> {
+    let mut rng = Rng::new(a.seed);
+    let mut cases = vec![];
+    let variant = a.rest.iter().find(|x| *x == "ipc").map(|_| "ipc").unwrap_or("local");
+    let sat = a.rest.iter().any(|x| x == "sat");
+    let churn = a.rest.iter().any(|x| x == "churn");
+    fn lo(rng: &mut Rng) -> u64 { if rng.chance(8) { 0 } else { 1 } }
+    if a.exhaustive > 0 {
+        return exhaustive(a, variant);
+    }
+    for _ in 0..a.cases {
+        let hi = if sat { 2 } else { 3 };
+        let l1 = lo(&mut rng); let l2 = lo(&mut rng);
+        let mchi = 2 + rng.below(2); let (mc, ms) = (rng.range(l1, mchi), rng.range(l2, 2));
+        let l3 = lo(&mut rng); let act = rng.range(l3, hi);
+        let l4 = lo(&mut rng); let buf = rng.range(l4, hi);
+        let l5 = lo(&mut rng); let bor = rng.range(l5, hi);
+        let (ovq, ovr, ff) = (rng.below(2), rng.below(2), rng.below(2));
+        let loans = rng.range(0, 2);
+        let (ecb, scb) = (rng.range(1, 3), rng.range(1, 3));
+        let (mcl, msl, actl) = (mc.max(1) as usize, ms.max(1) as usize, act.max(1));
+        let mut lines = vec![format!("new {variant} {mc} {ms} {act} {buf} {bor} {ovq} {ovr} {ff} {loans} {ecb} {scb}")];
+        let mut g = GenState { clients: vec![], servers: vec![], all_pendings: vec![], all_actives: vec![], queued_resp: HashMap::new(), nc: 0, ns: 0, nr: 0, na: 0, tag: 0 };
+        // weights: cclient cserver dclient dserver send recvreq respond dactive recvresp dpending dresp connected aconnected has hasreq hint ahint upd stray cycle
+        let wts: [u64; 20] = if sat { [3, 3, 1, 1, 20, 14, 30, 3, 24, 3, 8, 2, 2, 2, 1, 1, 1, 2, 2, 0] }
+            else if churn { [8, 6, 8, 4, 15, 12, 13, 5, 12, 7, 5, 3, 4, 2, 1, 2, 2, 2, 2, 6] }
+            else { [6, 6, 3, 3, 16, 13, 16, 5, 15, 6, 6, 3, 3, 2, 1, 2, 2, 2, 3, 1] };
+        let total: u64 = wts.iter().sum();
+        let target = rng.range(3, a.len) as usize;
+        while lines.len() < target {
+            let mut c = rng.below(total);
+            let mut k = 0;
+            while c >= wts[k] { c -= wts[k]; k += 1; }
+            let live_c: Vec<usize> = (0..g.clients.len()).filter(|i| g.clients[*i].alive).collect();
+            let live_s: Vec<usize> = (0..g.servers.len()).filter(|i| g.servers[*i].alive).collect();
+            if live_c.is_empty() && rng.chance(50) { k = 0 }
+            if live_s.is_empty() && rng.chance(50) { k = 1 }
+            match k {
+                0 => {
+                    // mostly only when there is room (a refused creation is tried now and then)
+                    if g.registered_clients() >= mcl && !rng.chance(15) { continue }
+                    let ok = g.registered_clients() < mcl;
+                    let c = g.nc; g.nc += 1;
+                    let (m, ma) = if rng.chance(75) { ("-".to_string(), actl) } else { let m = rng.range(0, act + 1); (m.to_string(), m.max(1)) };
+                    if ok && ma <= actl { g.clients.push(GClient { label: c, alive: true, max_active: ma, pendings: vec![], held: 0 }); }
+                    lines.push(format!("cclient {c} {m}"));
+                }
+                1 => {
+                    if g.registered_servers() >= msl && !rng.chance(15) { continue }
+                    let ok = g.registered_servers() < msl;
+                    let s = g.ns; g.ns += 1;
+                    if ok { g.servers.push(GServer { label: s, alive: true, actives: vec![], queue: vec![] }); }
+                    let m = if rng.chance(60) { "-".to_string() } else { rng.range(0, 2).to_string() };
+                    lines.push(format!("cserver {s} {m}"));
+                }
+                2 if !live_c.is_empty() => {
+                    let i = *rng.pick(&live_c); g.clients[i].alive = false;
+                    lines.push(format!("dclient {}", g.clients[i].label));
+                }
+                3 if !live_s.is_empty() => {
+                    let i = *rng.pick(&live_s); g.servers[i].alive = false;
+                    lines.push(format!("dserver {}", g.servers[i].label));
+                }
+                4 if !live_c.is_empty() => {
+                    let i = *rng.pick(&live_c);
+                    let c = g.clients[i].label;
+                    let r = g.nr; g.nr += 1; g.tag += 1;
+                    // beyond the limit only now and then
+                    let room = (g.clients[i].pendings.len() as u64) < g.clients[i].max_active;
+                    if !room && !rng.chance(if sat { 30 } else { 12 }) { continue }
+                    if room {
+                        g.clients[i].pendings.push(r); g.all_pendings.push((c, r));
+                        for s in g.servers.iter_mut() { if s.alive || !s.actives.is_empty() { s.queue.push((c, r)); if s.queue.len() as u64 > actl { if ovq == 1 { s.queue.remove(0); } else { s.queue.pop(); } } } }
+                    }
+                    lines.push(format!("send {c} {r} {}", g.tag));
+                }
+                5 if !live_s.is_empty() => {
+                    let i = *rng.pick(&live_s);
+                    if g.servers[i].queue.is_empty() && !rng.chance(15) { continue }
+                    let s = g.servers[i].label;
+                    let a = g.na; g.na += 1;
+                    if !g.servers[i].queue.is_empty() && (g.servers[i].actives.len() as u64) < actl {
+                        let (c, r) = g.servers[i].queue.remove(0);
+                        g.servers[i].actives.push((a, c, r)); g.all_actives.push((s, a));
+                    }
+                    lines.push(format!("recvreq {s} {a}"));
+                }
+                6 => {
+                    let cand: Vec<(usize, usize)> = (0..g.servers.len()).flat_map(|i| (0..g.servers[i].actives.len()).map(move |j| (i, j))).collect();
+                    if cand.is_empty() { continue }
+                    let (i, j) = *rng.pick(&cand);
+                    let (a, c, r) = g.servers[i].actives[j];
+                    g.tag += 1;
+                    *g.queued_resp.entry((c, r)).or_default() += 1;
+                    lines.push(format!("respond {} {a} {}", g.servers[i].label, g.tag));
+                }
+                7 => {
+                    let cand: Vec<(usize, usize)> = (0..g.servers.len()).flat_map(|i| (0..g.servers[i].actives.len()).map(move |j| (i, j))).collect();
+                    if cand.is_empty() { continue }
+                    let (i, j) = *rng.pick(&cand);
+                    let (a, _, _) = g.servers[i].actives.remove(j);
+                    lines.push(format!("dactive {} {a}", g.servers[i].label));
+                }
+                8 => {
+                    let cand: Vec<(usize, usize)> = (0..g.clients.len()).flat_map(|i| (0..g.clients[i].pendings.len()).map(move |j| (i, j))).collect();
+                    if cand.is_empty() { continue }
+                    // prefer a pending response something was sent for
+                    let with: Vec<(usize, usize)> = cand.iter().cloned().filter(|(i, j)| g.queued_resp.get(&(g.clients[*i].label, g.clients[*i].pendings[*j])).cloned().unwrap_or(0) > 0).collect();
+                    let (i, j) = if !with.is_empty() && rng.chance(85) { *rng.pick(&with) } else if rng.chance(40) { *rng.pick(&cand) } else { continue };
+                    let (c, r) = (g.clients[i].label, g.clients[i].pendings[j]);
+                    if let Some(q) = g.queued_resp.get_mut(&(c, r)) { if *q > 0 { *q -= 1; g.clients[i].held += 1; } }
+                    lines.push(format!("recvresp {c} {r}"));
+                }
+                9 => {
+                    let cand: Vec<(usize, usize)> = (0..g.clients.len()).flat_map(|i| (0..g.clients[i].pendings.len()).map(move |j| (i, j))).collect();
+                    if cand.is_empty() { continue }
+                    let (i, j) = *rng.pick(&cand);
+                    let r = g.clients[i].pendings.remove(j);
+                    lines.push(format!("dpending {} {r}", g.clients[i].label));
+                }
+                10 => {
+                    let cand: Vec<usize> = (0..g.clients.len()).filter(|i| g.clients[*i].held > 0).collect();
+                    if cand.is_empty() { continue }
+                    let i = *rng.pick(&cand);
+                    let k = rng.below(g.clients[i].held as u64);
+                    g.clients[i].held -= 1;
+                    lines.push(format!("dresp {} {k}", g.clients[i].label));
+                }
+                11 | 13 | 15 => {
+                    if g.all_pendings.is_empty() { continue }
+                    let (c, r) = if rng.chance(70) { g.all_pendings[g.all_pendings.len() - 1 - rng.below(g.all_pendings.len().min(4) as u64) as usize] } else { *rng.pick(&g.all_pendings) };
+                    lines.push(format!("{} {c} {r}", match k { 11 => "connected", 13 => "has", _ => "hint" }));
+                }
+                12 | 16 => {
+                    if g.all_actives.is_empty() { continue }
+                    let (s, a) = if rng.chance(70) { g.all_actives[g.all_actives.len() - 1 - rng.below(g.all_actives.len().min(4) as u64) as usize] } else { *rng.pick(&g.all_actives) };
+                    lines.push(format!("{} {s} {a}", if k == 12 { "aconnected" } else { "ahint" }));
+                }
+                14 if !live_s.is_empty() => lines.push(format!("hasreq {}", g.servers[*rng.pick(&live_s)].label)),
+                17 => {
+                    if rng.chance(50) && !live_c.is_empty() { lines.push(format!("upd c {}", g.clients[*rng.pick(&live_c)].label)) }
+                    else if !live_s.is_empty() { lines.push(format!("upd s {}", g.servers[*rng.pick(&live_s)].label)) }
+                }
+                18 => {
+                    // stray calls: labels that were dropped, never existed or are in use
+                    let c = rng.below(g.nc as u64 + 1); let s = rng.below(g.ns as u64 + 1);
+                    let r = rng.below(g.nr as u64 + 1); let a = rng.below(g.na as u64 + 1);
+                    g.tag += 1;
+                    lines.push(match rng.below(10) {
+                        0 => format!("send {c} {r} {}", g.tag), 1 => format!("recvreq {s} {a}"), 2 => format!("respond {s} {a} {}", g.tag),
+                        3 => format!("dactive {s} {a}"), 4 => format!("recvresp {c} {r}"), 5 => format!("dpending {c} {r}"),
+                        6 => format!("dresp {c} {}", rng.below(3)), 7 => format!("dclient {c}"), 8 => format!("dserver {s}"), _ => format!("cclient {c} -"),
+                    });
+                }
+                19 if !live_s.is_empty() => {
+                    // a client comes, sends, is answered or not, and goes completely while a server may still hold its request
+                    if g.registered_clients() >= mcl { continue }
+                    let c = g.nc; g.nc += 1;
+                    let r = g.nr; g.nr += 1; g.tag += 1;
+                    lines.push(format!("cclient {c} -"));
+                    lines.push(format!("send {c} {r} {}", g.tag));
+                    g.all_pendings.push((c, r));
+                    let i = *rng.pick(&live_s);
+                    let s = g.servers[i].label;
+                    if rng.chance(70) {
+                        let a = g.na; g.na += 1;
+                        lines.push(format!("recvreq {s} {a}"));
+                        g.all_actives.push((s, a));
+                        if (g.servers[i].actives.len() as u64) < actl && g.servers[i].queue.is_empty() { g.servers[i].actives.push((a, c, r)); }
+                        if rng.chance(40) { g.tag += 1; lines.push(format!("respond {s} {a} {}", g.tag)); }
+                    }
+                    if rng.chance(85) { lines.push(format!("dpending {c} {r}")); lines.push(format!("dclient {c}")); }
+                    else { g.clients.push(GClient { label: c, alive: true, max_active: actl, pendings: vec![r], held: 0 }); }
+                }
+                _ => continue,
+            };
+        }
+        cases.push(lines);
+    }
+    cases
+}
+
+/// every sequence of length `exhaustive` over a fixed alphabet, for a few small configurations
+fn exhaustive(a: &Args, variant: &str) -> Vec<Vec<String>> {
+    let mut cases = vec![];
+    // configurations: (max clients, max servers, A, B, R, ovq, ovr, ff, L, ecb, scb)
+    let configs = ["2 1 1 1 1 0 0 0 1 1 1", "2 1 1 1 1 1 1 1 1 1 1", "1 2 2 1 1 0 1 1 1 1 1", "2 2 1 2 2 1 0 0 1 1 1"];
+    let alphabet: Vec<String> = [
+        "cclient", "cserver", "dclient", "dserver", "send 0", "send new", "recvreq 0", "recvreq new", "respond old", "respond new", "dactive", "recvresp old", "recvresp new",
+        "dpending", "dresp",
+    ].iter().map(|x| x.to_string()).collect();
+    for cfg in configs {
+        enumerate_seqs(&alphabet, a.exhaustive as usize, &mut |seq| {
+            // prefix: one client, one server, one request on its way and received
+            let mut lines = vec![format!("new {variant} {cfg}"), "cclient 0 -".to_string(), "cserver 0 -".to_string(), "send 0 0 1".to_string(), "recvreq 0 0".to_string()];
+            let (mut nc, mut ns, mut nr, mut na, mut tag) = (1usize, 1usize, 1usize, 1usize, 1u64);
+            let (mut dc, mut ds) = (0usize, 0usize);
+            let mut pend: Vec<(usize, usize)> = vec![(0, 0)];
+            let mut act: Vec<(usize, usize)> = vec![(0, 0)];
+            for &i in seq {
+                match alphabet[i].as_str() {
+                    "cclient" => { lines.push(format!("cclient {nc} -")); nc += 1; }
+                    "cserver" => { lines.push(format!("cserver {ns} -")); ns += 1; }
+                    "dclient" => { lines.push(format!("dclient {dc}")); dc += 1; }
+                    "dserver" => { lines.push(format!("dserver {ds}")); ds += 1; }
+                    "send 0" | "send new" => {
+                        let c = if alphabet[i] == "send 0" { 0 } else { nc - 1 };
+                        tag += 1;
+                        lines.push(format!("send {c} {nr} {tag}")); pend.push((c, nr)); nr += 1;
+                    }
+                    "recvreq 0" | "recvreq new" => {
+                        let s = if alphabet[i] == "recvreq 0" { 0 } else { ns - 1 };
+                        lines.push(format!("recvreq {s} {na}")); act.push((s, na)); na += 1;
+                    }
+                    "respond old" | "respond new" => {
+                        if let Some((s, a)) = if alphabet[i] == "respond old" { act.first() } else { act.last() } { tag += 1; lines.push(format!("respond {s} {a} {tag}")); }
+                    }
+                    "dactive" => { if !act.is_empty() { let (s, a) = act.remove(0); lines.push(format!("dactive {s} {a}")); } }
+                    "recvresp old" | "recvresp new" => {
+                        if let Some((c, r)) = if alphabet[i] == "recvresp old" { pend.first() } else { pend.last() } { lines.push(format!("recvresp {c} {r}")); }
+                    }
+                    "dpending" => { if !pend.is_empty() { let (c, r) = pend.remove(0); lines.push(format!("dpending {c} {r}")); } }
+                    "dresp" => lines.push("dresp 0 0".to_string()),
+                    _ => unreachable!(),
+                }
+            }
+            cases.push(lines);
+        });
+    }
+    cases
 }
